@@ -310,7 +310,9 @@ class Sim:
             conn = await self.connector.connect(req, [], tmo)
         except BaseException as e:  # noqa
             was = self.phase.get(t)
-            self.phase[t] = "cancelled" if was == "waiting" else "failed"
+            # while queued: cancel / timeout -> cancelled; a closed connector refusing to queue -> failed
+            self.phase[t] = ("cancelled" if was == "waiting" and isinstance(e, (asyncio.CancelledError, asyncio.TimeoutError))
+                             else "failed")
             self.deadline.pop(t, None)
             if not isinstance(e, (asyncio.CancelledError, asyncio.TimeoutError, OSError, self.aiohttp.ClientError)):
                 self.exc.append(repr(e))
